@@ -36,7 +36,7 @@ ALLOWED_AXIOMS = tuple("""
 ClassicalDedekindReals.sig_forall_dec ClassicalDedekindReals.sig_not_dec Classical_Prop.classic
 FunctionalExtensionality.functional_extensionality_dep
 Prim2SF_SF2Prim Prim2SF_valid SF2Prim_Prim2SF abs_spec add_spec div_spec eqb_spec leb_spec ltb_spec mul_spec
-of_uint63_spec opp_spec
+of_uint63_spec opp_spec sub_spec
 abs add div eqb float frshiftexp ldshiftexp leb ltb mul normfr_mantissa of_uint63 opp sub
 PrimInt63.add PrimInt63.eqb PrimInt63.int PrimInt63.land PrimInt63.leb PrimInt63.lor PrimInt63.lsl PrimInt63.lsr
 PrimInt63.ltb PrimInt63.sub
@@ -450,7 +450,7 @@ def e2e_one(exe, ml_exe, c):
     if c["maxnps"]:
         tpm = max(1, min(tpm, c["maxnps"] // 1000))
     eng = Engine(exe, tpm)
-    v = dict(case=c, ticks_per_ms=tpm, bad=None)
+    v = dict(case=c, ticks_per_ms=tpm, bad=None, bad_kind="spec")
     try:
         eng.send("uci")
         for l in uci_script(c)[:2]:
@@ -473,9 +473,9 @@ def e2e_one(exe, ml_exe, c):
             if c["delay"]:
                 time.sleep(c["delay"])
             eng.send("ponderhit" if c["kind"] == "ponderhit" else "stop")
-        i_best = eng.wait_for(lambda l: l.startswith("bestmove"), 120)
+        i_best = eng.wait_for(lambda l: l.startswith("bestmove"), 40)
         if i_best is None:
-            v["bad"] = "no bestmove within 120 s (script: %s / %s)" % (go, c["kind"])
+            v["bad"] = "no bestmove within 40 s of real time (script: %s / %s)" % (go, c["kind"])
             return v
         lines = list(eng.lines[:i_best + 1])
     finally:
@@ -496,25 +496,41 @@ def e2e_one(exe, ml_exe, c):
         v["bad"] = "no bestmove time stamp"
         return v
     # H2: limits handed to the search = the model's
+    tstart = lims[0][3]
+    hits = [x for x in lims[1:] if x[:2] != (0, 0)]
+    # specification side, independent of the model: whatever is handed over stays within the budget
+    t_clock = c["wt"] if white else c["bt"]
+    cap = c["mt"] if c["mt"] > 0 else max(1, spec_budget(t_clock, c["buf"]))
+    for x in ([lims[0]] if c["kind"] in ("go", "stop") else []) + (hits[:1] if c["kind"] == "ponderhit" else []):
+        if not (1 <= x[0] <= x[1] <= cap):
+            v["bad"] = "limits handed to the search %s are not within 1 <= soft <= hard <= %d" % (x[:2], cap)
+            return v
+    if c["ponderCmd"] and lims[0][:2] != (-1, -1):
+        v["bad"] = "ponder search started with limits %s" % (lims[0][:2],)
+        return v
+    # correspondence: the limits are exactly the model's
     if lims[0][:3] != exp_start:
+        v["bad_kind"] = "corr"
         v["bad"] = "limits handed to the search %s differ from the model's %s" % (lims[0][:3], exp_start)
         return v
-    tstart = lims[0][3]
-    if c["kind"] == "ponderhit":
-        hits = [x for x in lims[1:] if x[:2] != (0, 0)]
-        if not hits or hits[0][:3] != exp_hit:
-            v["bad"] = "limits after ponderhit %s differ from the model's %s" % (hits[:1], exp_hit)
-            return v
+    if c["kind"] == "ponderhit" and (not hits or hits[0][:3] != exp_hit):
+        v["bad_kind"] = "corr"
+        v["bad"] = "limits after ponderhit %s differ from the model's %s" % (hits[:1], exp_hit)
+        return v
     gap = max(best["maxgap"], 1)
     latency = best["now"] - best["lastpoll"]
     v["latency"] = latency
     # deadline in virtual ms
+    # (the instant a limit change takes effect is the `now` of its H2 notification, which is
+    # read after the new limits have been stored; the stamp printed on entry of ponderHit /
+    # stopThread is earlier, the search thread keeps running in between)
     if c["kind"] == "go":
-        deadline = tstart + exp_start[1]
+        deadline = tstart + lims[0][1]
     elif c["kind"] == "ponderhit":
-        deadline = max(t_hit if t_hit is not None else tstart, tstart + exp_hit[1])
+        deadline = max(hits[0][4], tstart + hits[0][1]) if hits else best["now"]
     else:
-        deadline = t_stop if t_stop is not None else best["now"]
+        zeros = [x for x in lims[1:] if x[:2] == (0, 0)]
+        deadline = zeros[0][4] if zeros else best["now"]
     v["deadline"] = deadline
     if best["polls"] > 0 and best["lastpoll"] > deadline + gap:
         v["bad"] = ("search still polling at virtual time %d, later than deadline %d (tstart %d + hard) plus one polling "
@@ -524,7 +540,7 @@ def e2e_one(exe, ml_exe, c):
     return v
 
 
-def end_to_end(ctx, ml_exe, pars, spec_fail):
+def end_to_end(ctx, ml_exe, pars, spec_fail, disagreements):
     if not hook_present():
         ctx.notes["end_to_end"] = ("skipped: hook H1/H2 (hooks/h1-virtual-clock.patch) is not applied to %s; only the "
                                    "function-level correspondence ran" % REPO)
@@ -532,10 +548,18 @@ def end_to_end(ctx, ml_exe, pars, spec_fail):
         return
     exe = cbuild.build_engine("material", 1)
     n = ctx.scale(150, 2000)
+    if spec_fail or disagreements:
+        n = 16          # the function-level stage already failed: a short confirmation run only
     cases = [gen_e2e_case(ctx.rng, pars) for _ in range(n)]
     t0 = time.time()
-    with ThreadPoolExecutor(max_workers=max(2, NCPU // 2)) as ex:
-        res = list(ex.map(lambda c: e2e_one(exe, ml_exe, c), cases))
+    res = []
+    W = max(2, NCPU // 2)
+    with ThreadPoolExecutor(max_workers=W) as ex:
+        for i in range(0, n, 4 * W):
+            res += list(ex.map(lambda c: e2e_one(exe, ml_exe, c), cases[i:i + 4 * W]))
+            if sum(1 for v in res if v["bad"]) >= 3:
+                break           # enough evidence; do not wait for more runs of a broken engine
+    n = len(res)
     gaps, lat = [], []
     for v in res:
         ctx.evaluated()
@@ -552,8 +576,11 @@ def end_to_end(ctx, ml_exe, pars, spec_fail):
                 ctx.count("e2e_stopped_within_one_interval_of_deadline")
         ctx.nontrivial(("E", json.dumps(v["case"], sort_keys=True)))
         if v["bad"]:
-            spec_fail.append(dict(kind="e2e", case=v["case"], cpp=json.dumps({k: v.get(k) for k in ("limits", "best", "t_ponderhit", "t_stop", "deadline", "ticks_per_ms")}),
-                                  why=v["bad"]))
+            obs = json.dumps({k: v.get(k) for k in ("limits", "best", "t_ponderhit", "t_stop", "deadline", "ticks_per_ms")})
+            if v["bad_kind"] == "corr":
+                disagreements.append(dict(kind="e2e", case=v["case"], cpp=obs, model=v["bad"], note="end-to-end H2 notification"))
+            else:
+                spec_fail.append(dict(kind="e2e", case=v["case"], cpp=obs, why=v["bad"]))
     ctx.notes["end_to_end"] = {"runs": n, "wall_s": round(time.time() - t0, 1),
                                "max_polling_interval_virtual_ms": max(gaps) if gaps else None,
                                "max_report_latency_virtual_ms": max(lat) if lat else None}
@@ -816,7 +843,7 @@ def run(ctx):
     ctx.notes["distribution"] = {"alloc_in_range": n_alloc, "alloc_malformed": n_wild, "poll": n_poll,
                                  "correspondence_wall_s": round(time.time() - t0, 1)}
     ctx.traces_validated = ctx.evaluations
-    end_to_end(ctx, ml_exe, pars, spec_fail)
+    end_to_end(ctx, ml_exe, pars, spec_fail, disagreements)
     if literal:
         ctx.notes["literal_reading"] = {
             "note": "the property text says 'remaining clock minus the configured safety buffer'; the code (and "
@@ -840,7 +867,7 @@ def run(ctx):
             small = shrink_alloc(cpp_exe, ml_exe, d["case"]) if d["kind"] == "alloc" else d["case"]
             replay["disagreement"] = {"kind": d["kind"], "case": small, "original": d["case"], "cpp": d["cpp"],
                                       "model": d["model"], "note": d["note"], "count": len(disagreements)}
-            first = [small] + [x["case"] for x in disagreements[:200] if x["kind"] == "alloc"]
+            first = ([small] if d["kind"] == "alloc" else []) + [x["case"] for x in disagreements[:200] if x["kind"] == "alloc"]
         found = finder(ctx, cpp_exe, first, pars, ctx.scale(60000, 2000000))
     if found:
         replay["failing_input"] = found
@@ -872,8 +899,17 @@ def replay(ctx, body):
     if not f:
         print("no concrete input in this replay (broken theorem/correspondence):", r.get("broken"))
         return
-    cpp_exe = build_cpp_harness()
     c = f["case"]
+    if f.get("kind") == "e2e":
+        if not hook_present():
+            print("this replay needs hook H1/H2 in the tree (VERIF_REPO=%s)" % REPO)
+            return
+        v = e2e_one(cbuild.build_engine("material", 1), build_ml_driver(), c)
+        print("script:", uci_script(c), c["kind"], "threads", c["threads"], "MaxNPS", c["maxnps"])
+        print("observed:", {k: v.get(k) for k in ("limits", "best", "t_ponderhit", "t_stop", "deadline", "ticks_per_ms")})
+        print("specification:", v["bad"] or "ok")
+        return
+    cpp_exe = build_cpp_harness()
     if f.get("kind") == "poll":
         rc, out, _ = run_lines(cpp_exe, [poll_line(c)])
         print("input:", poll_line(c))
